@@ -17,8 +17,9 @@
    Flush label names the bytes per slice.  The theorems quantify over all of them, the correspondence
    feeds the observed ones (and rejects a slot that the model does not consider free).
 
-   [fx] = false: linkedBuffer.recycle() does not touch the pinned list (the code today);
-   [fx] = true : recycle() also cleans the pinned list (candidate repair). *)
+   [fx] = true : linkedBuffer.recycle() also cleans the pinned list (the code since a234a74);
+   [fx] = false: recycle() does not touch the pinned list (the code before; kept for the regression).
+   Which variant /repo is, is translated from buffer.go on every run (Gen/SwitchC09.v). *)
 From Coq Require Import List ZArith Bool Arith.
 From Shm Require Import Gen.Consts.
 Import ListNotations.
@@ -299,7 +300,7 @@ Definition do_reuse (e : bool) (sid : nat) (s : st) : st :=
   end.
 
 (* Stream.Close -> clean(): pendingData.clear, recvBuf.recycle, sendBuf.recycle; the pinned list is
-   NOT recycled by linkedBuffer.recycle() today (fx = false) *)
+   recycled by linkedBuffer.recycle() only in the fx = true variant *)
 Definition do_close (e : bool) (sid : nat) (s : st) : st :=
   let k := key e sid in
   let v := streams s k in
